@@ -21,7 +21,8 @@ import slimta.diskstorage as sds
 from slimta.diskstorage import DiskStorage, AioFile
 from slimta.envelope import Envelope
 from slimta.queue import Queue
-from slimta.relay import Relay
+from slimta.relay import Relay, TransientRelayError
+from slimta.smtp.reply import Reply
 
 ID = 'C04'
 LEVEL = 'fault_enumeration'
@@ -71,11 +72,21 @@ class OsProxy(object):
         REC.snap('unlink')
         return self._real.remove(p)
 
+    def unlink(self, p):
+        REC.snap('unlink')
+        return self._real.unlink(p)
+
+    def open(self, path, flags, *a, **kw):
+        # a scratch file created without tempfile.mkstemp is a file-system effect like any other
+        if flags & self._real.O_CREAT:
+            REC.snap('open-create')
+        return self._real.open(path, flags, *a, **kw)
+
     def __getattr__(self, name):
         return getattr(self._real, name)
 
 
-_real_mkstemp = sds.mkstemp
+_real_mkstemp = getattr(sds, 'mkstemp', None) or tempfile.mkstemp
 _real_aio_write = sds.aio_write
 
 
@@ -90,7 +101,8 @@ def _aio_write(fd, piece, offset, callback):
 
 
 sds.os = OsProxy(os)
-sds.mkstemp = _mkstemp
+if hasattr(sds, 'mkstemp'):
+    sds.mkstemp = _mkstemp
 sds.aio_write = _aio_write
 
 
@@ -98,9 +110,15 @@ class RecRelay(Relay):
     def __init__(self):
         super(RecRelay, self).__init__()
         self.calls = []
+        self.fail_first = False
 
     def attempt(self, envelope, attempts):
-        self.calls.append((str(envelope.headers['X-Tag']), list(envelope.recipients), attempts))
+        tag = str(envelope.headers['X-Tag'])
+        self.calls.append((tag, list(envelope.recipients), attempts))
+        if self.fail_first and len([c for c in self.calls if c[0] == tag]) == 1:
+            # the first attempt after the restart fails for now: the queue has to write the metadata of a message
+            # whose last operation was cut short by the crash
+            raise TransientRelayError('try again', Reply('450', '4.0.0 try again'))
         return None
 
 
@@ -351,12 +369,13 @@ def judge_snapshot(path, same_tmp, msgs, expect, where):
     qm.CLOCK.now = 10.0 ** 10
     qm.CLOCK.timers = []
     relay = RecRelay()
-    queue = Queue(DiskStorage(env_dir, meta_dir, tmp_dir), relay)
+    relay.fail_first = True
+    queue = Queue(DiskStorage(env_dir, meta_dir, tmp_dir), relay, backoff=lambda envelope, attempts: 0)
     queue.start()
     try:
         for _ in range(400):
             gevent.idle()
-            if len(relay.calls) >= len(must) and all(any(c[0] == t for c in relay.calls) for t in must):
+            if all(len([c for c in relay.calls if c[0] == t]) >= 2 for t in must):
                 break
             gevent.sleep(0.001)
     finally:
@@ -373,6 +392,12 @@ def judge_snapshot(path, same_tmp, msgs, expect, where):
         if calls[0][1] != rc or calls[0][2] != attempts:
             return [('C04:resumed-with-wrong-state', '%s: message %s re-attempted with %r, storage said %r'
                      % (where, tag, calls[0][1:], (rc, attempts)))]
+        if len(calls) < 2:
+            return [('C04:not-retried-after-restart', '%s: the first attempt of message %s after the restart failed transiently '
+                     '(backoff 0) and the fresh Queue never attempted it again (attempts made: %r)' % (where, tag, relay.calls))]
+        if calls[1][1] != rc or calls[1][2] != attempts + 1:
+            return [('C04:retried-with-wrong-state', '%s: message %s retried with %r, expected %r'
+                     % (where, tag, calls[1][1:], (rc, attempts + 1)))]
     return []
 
 
